@@ -94,3 +94,7 @@ func vb2u(b bool) uint64 {
 	}
 	return 0
 }
+
+// vTimerArmedNative: natively there is no way to query a runtime timer without
+// disturbing it, so the native meaning is "true"; the engine answers from its ghost.
+func vTimerArmedNative(t *time.Timer) bool { return true }
